@@ -8,5 +8,7 @@ CONSTANTS
   Mutant = "none"
   MaxNodes = 5
   WithQuit = TRUE
+  WithErr = FALSE
+  WithSkip = FALSE
 INVARIANT Safety
 PROPERTY Term
